@@ -578,6 +578,32 @@ pub fn run(ctx: &mut Ctx) {
 		}
 	}
 	ctx.count("starved_stream_cases", starved);
+	// ---- several playback-state commands between the same two callbacks: which one wins is not fixed by the life cycle
+	// (C07), but all of them are consumed by the next callback: afterwards the state only moves by fades completing
+	let nsi = ctx.t(2_000u64, 200_000u64);
+	let mut same_interval = 0u64;
+	for i in 0..nsi {
+		if !ctx.owns("burst", i) {
+			continue;
+		}
+		if !ctx.replaying() && !ctx.time_left(0.995) {
+			break;
+		}
+		let mut r = Rng::for_case(ctx.seed, 303, i);
+		ctx.eval();
+		crate::monitors::set_current(ctx, "burst", i, "same-interval state commands", false);
+		let res = super::guarded(|| same_interval_case(&mut r));
+		crate::monitors::clear_current();
+		match res {
+			Ok(Ok(())) => {
+				same_interval += 1;
+				ctx.distinct_key(0xC03_0006_0000 | (i % 61));
+			}
+			Ok(Err(e)) => ctx.violation("burst", i, &e, J::Null),
+			Err(p) => ctx.violation("burst", i, &format!("panic: {}", p.first().map(|p| p.sig()).unwrap_or_default()), J::Null),
+		}
+	}
+	ctx.count("same_interval_command_cases", same_interval);
 	ctx.count("callbacks_observed", cov.callbacks);
 	ctx.count("distinct_state_transitions_observed", cov.transitions.len() as u64);
 	ctx.count("distinct_state_x_command_cells_observed", cov.state_cmd.len() as u64);
@@ -643,6 +669,49 @@ fn starved_stream_case(r: &mut Rng) -> Result<(), String> {
 		return Err(format!("starved streaming sound was Stopped but not unloaded (num_sounds = {}) [{:?}]", track.num_sounds(), hist));
 	}
 	dec_state.release();
+	Ok(())
+}
+
+fn same_interval_case(r: &mut Rng) -> Result<(), String> {
+	let mut rig = Rig::simple(SR, CHUNK);
+	let frames: Vec<Frame> = vec![Frame::from_mono(DC); 64];
+	let mut h = rig.mgr.play(StaticSoundData { sample_rate: SR, frames: frames.into(), settings: StaticSoundSettings::new().loop_region(..), slice: None }).map_err(|_| "play")?;
+	rig.callback(CHUNK);
+	if r.chance(0.3) {
+		h.pause(tween(0.0));
+		rig.callback(CHUNK);
+	}
+	let mut names = vec![];
+	for _ in 0..r.usize_in(2, 3) {
+		let d = *r.pick(&[0.0, 2.5, 6.0]);
+		match r.below(3) {
+			0 => {
+				h.pause(tween(d));
+				names.push(format!("pause({})", d));
+			}
+			1 => {
+				h.resume(tween(d));
+				names.push(format!("resume({})", d));
+			}
+			_ => {
+				h.stop(tween(d));
+				names.push(format!("stop({})", d));
+			}
+		}
+	}
+	rig.callback(CHUNK);
+	let mut st = h.state();
+	let mut trace = vec![st];
+	for _ in 0..10 {
+		rig.callback(CHUNK);
+		let n = h.state();
+		let ok = n == st || matches!((st, n), (PlaybackState::Stopping, PlaybackState::Stopped) | (PlaybackState::Pausing, PlaybackState::Paused) | (PlaybackState::Resuming, PlaybackState::Playing));
+		trace.push(n);
+		if !ok {
+			return Err(format!("commands [{}] (fade lengths in chunks) issued to one sound between two callbacks: the state then went {:?}; once all commands have been consumed only fades completing can change it", names.join(", "), trace));
+		}
+		st = n;
+	}
 	Ok(())
 }
 
